@@ -128,6 +128,48 @@ func TestC10Tree(t *testing.T) {
 			}
 		}
 
+		// Wide and deep trees around g (an evaluator that keeps a budget, a
+		// depth counter or a cache must not change the verdict): many false
+		// groups before one that decides, many true groups, deep nesting.
+		if rapid.IntRange(0, 9).Draw(t, "bigtree") == 0 {
+			k := rapid.IntRange(60, 140).Draw(t, "bigtree-width")
+			never := func() *jsonapi.Filter {
+				return &jsonapi.Filter{Op: "and", Val: []*jsonapi.Filter{tree.Build(), {Op: "or", Val: []*jsonapi.Filter{}}}}
+			}
+			always := func() *jsonapi.Filter {
+				return &jsonapi.Filter{Op: "or", Val: []*jsonapi.Filter{tree.Build(), {Op: "and", Val: []*jsonapi.Filter{}}}}
+			}
+
+			wideOr := &jsonapi.Filter{Op: "or"}
+			wideAnd := &jsonapi.Filter{Op: "and"}
+			orKids, andKids := []*jsonapi.Filter{}, []*jsonapi.Filter{}
+
+			for i := 0; i < k; i++ {
+				orKids = append(orKids, never())
+				andKids = append(andKids, always())
+			}
+
+			wideOr.Val = append(orKids, tree.Build())
+			wideAnd.Val = append(andKids, tree.Build())
+
+			deep := tree.Build()
+			for i := 0; i < k; i++ {
+				deep = &jsonapi.Filter{Op: []string{"and", "or"}[i%2], Val: []*jsonapi.Filter{deep}}
+			}
+
+			for name, f := range map[string]*jsonapi.Filter{"or of many false groups and g": wideOr, "and of many true groups and g": wideAnd, "g nested deeply": deep} {
+				var vs, vw bool
+
+				if p := oracle.Try(func() { vs, vw = f.IsAllowed(soft), f.IsAllowed(wrapped) }); p != nil {
+					t.Fatalf("C10 violated: IsAllowed (%s, %d) %s\ng: %s", name, k, p, tree)
+				}
+
+				if vs != want || vw != want {
+					t.Fatalf("C10 violated: %s (%d of them) gives soft=%v wrapped=%v, g alone gives %v\ntype: %s\nvalues: %s\ng: %s", name, k, vs, vw, want, ts, gen.ShowVals(vals), tree)
+				}
+			}
+		}
+
 		// One filter object used again after its values were edited (a list
 		// element replaced in place, a value assigned): the verdict is that
 		// of the filter as it is now.
